@@ -799,6 +799,55 @@ def rule_R(ctx):
         raise shape_error('CSV write/read not interpretable: %s' % ex, fw.loc())
     except orders.PROGRAM_ERRORS as ex:
         found['sep-clash: '] = ('a file written with the documented blank separator can be read back', {'exception': '%s: %s' % (type(ex).__name__, str(ex)[:200])})
+    # two files written and read in the same process with two time formats in which the same text denotes two dates (03/02/2020:
+    # 3 February under day/month/year, 2 March under month/day/year)
+    if all(m_ in ctx.prog.cls(OT._qual).methods for m_ in ('setReadFormat', 'setPrintFormat', 'getReadFormat', 'getPrintFormat')):
+        rf0, pf0 = OT.getReadFormat(), OT.getPrintFormat()
+        try:
+            for tf_, stamps_ in (('2D/2M/4Y 2h:2m:2s', [(2020, 2, 3, 10, 0, 0, 0), (2020, 11, 12, 8, 30, 0, 0)]), ('2M/2D/4Y 2h:2m:2s', [(2020, 3, 2, 10, 0, 0, 0), (2020, 12, 11, 8, 30, 0, 0)])):
+                n_cases += 1
+                case = {'time format (print and read)': tf_, 'history': 'the second of two files written and read in one process, each with its own time format' if tf_.startswith('2M') else 'first file'}
+                OT.setPrintFormat(tf_)
+                OT.setReadFormat(tf_)
+                src = T([O(kinds['ENU'](10.0 * k_, 5.0, 1.0), OT(*st)) for k_, st in enumerate(stamps_)], 'u', 't')
+                path = '/out/fmt%d.csv' % n_cases
+                TW.writeToFile(src, path, 0, 1, 2, 3, ',', 0)
+                back = TR.readFromFile(path, TF({'ext': 'CSV', 'srid': 'ENU', 'id_E': 0, 'id_N': 1, 'id_U': 2, 'id_T': 3, 'separator': ',', 'header': 0}))
+                if isinstance(back, orders.Obj) and '_TrackCollection__TRACES' in back.fields and len(back.fields['_TrackCollection__TRACES']) == 1:
+                    back = back.fields['_TrackCollection__TRACES'][0]
+                pts = back.fields.get('_Track__POINTS') if isinstance(back, orders.Obj) else None
+                gt = [tuple(o.fields['timestamp'].fields.get(f_) for f_ in ('year', 'month', 'day', 'hour', 'min', 'sec')) for o in pts] if pts else None
+                if gt != [st[:6] for st in stamps_]:
+                    found.setdefault('time', ('timestamps read back are identical to the second', dict(case, written=[list(st[:6]) for st in stamps_], read=[list(g_) for g_ in gt] if gt else None, file=vfs.files.get(path, '')[:200])))
+        except orders.Unsupported as ex:
+            raise shape_error('CSV write/read not interpretable: %s' % ex, fw.loc())
+        except orders.PROGRAM_ERRORS as ex:
+            found.setdefault('fails', ('a written CSV file can be read back with the matching format', {'time format': tf_, 'exception': '%s: %s' % (type(ex).__name__, str(ex)[:200])}))
+        finally:
+            OT.setReadFormat(rf0)
+            OT.setPrintFormat(pf0)
+    # metric coordinates within a metre of the no-data marker (-999999) but not equal to it are coordinates
+    nd_ = TF({'ext': 'CSV', 'srid': 'ENU', 'id_E': 0, 'id_N': 1, 'id_U': 2, 'id_T': 3, 'separator': ',', 'header': 0}).fields.get('no_data_value')
+    nd_ = nd_ if isinstance(nd_, (int, float)) and not isinstance(nd_, bool) else -999999
+    for srid, pts_ in (('ENU', [(100.0, nd_ + 0.25, 5.0), (nd_ + 1.4, 200.0, 6.0), (nd_ - 7.5, nd_ + 3.0, 7.0)]), ('ECEF', [(nd_ + 0.4, 5000000.0, 3000000.0), (4000000.0, nd_ + 0.75, 2000000.0)])):
+        n_cases += 1
+        case = {'coordinates': srid, 'values next to the no-data marker %r' % nd_: [list(p_) for p_ in pts_]}
+        try:
+            src = T([O(kinds[srid](*v), OT(2021, 5, 6, 7, 8, 9, 0)) for v in pts_], 'u', 't')
+            path = '/out/nd%d.csv' % n_cases
+            TW.writeToFile(src, path, 0, 1, 2, 3, ',', 0)
+            back = TR.readFromFile(path, TF({'ext': 'CSV', 'srid': srid, 'id_E': 0, 'id_N': 1, 'id_U': 2, 'id_T': 3, 'separator': ',', 'header': 0}))
+            if isinstance(back, orders.Obj) and '_TrackCollection__TRACES' in back.fields and len(back.fields['_TrackCollection__TRACES']) == 1:
+                back = back.fields['_TrackCollection__TRACES'][0]
+            pts = back.fields.get('_Track__POINTS') if isinstance(back, orders.Obj) else None
+            got = [_xyz(_pos(o)) for o in pts] if pts else None
+            if got is None or len(got) != len(pts_) or any(abs(g_ - w_) > 1.001e-3 for gp, wp in zip(got, pts_) for g_, w_ in zip(gp, wp)):
+                found.setdefault('coords', ('coordinates read back equal the written ones to the written precision (1 mm metric, 1e-8 degree geographic), in the same coordinate system',
+                                            dict(case, read=[list(g_) for g_ in got] if got else None, file=vfs.files.get(path, '')[:300])))
+        except orders.Unsupported as ex:
+            raise shape_error('CSV write/read not interpretable: %s' % ex, fw.loc())
+        except orders.PROGRAM_ERRORS as ex:
+            found.setdefault('fails', ('a written CSV file can be read back with the matching format', dict(case, exception='%s: %s' % (type(ex).__name__, str(ex)[:200]))))
     for key, (desc, wit) in sorted(found.items()):
         ctx.violation('C13.R', fw, desc, wit, node=fw.node, key=key)
     if not [k for k in found if k != 'sep-clash: ']:
@@ -909,10 +958,12 @@ def rule_X(ctx):
     edges = [('e0', 'A', 'B', 0, [(0.0, 0.0), (5.5, 1.25), (10.0, 0.0)]), ('e1', 'B', 'C', 1, [(10.0, 0.0), (10.0, 10.0)]),
              ('e2', 'A', 'C', -1, [(0.0, 0.0), (-3.0, 4.0), (2.0, 12.5), (10.0, 10.0)]), ('e3', 'C', 'D', 0, [(10.0, 10.0), (20.125, 10.0)]),
              # an edge travelled against its geometry whose two end nodes appear on no earlier edge
-             ('e4', 'F', 'G', -1, [(30.0, -5.0), (31.5, -2.0), (40.0, 2.5)]), ('e5', 'G', 'A', 1, [(40.0, 2.5), (0.0, 0.0)])]
+             ('e4', 'F', 'G', -1, [(30.0, -5.0), (31.5, -2.0), (40.0, 2.5)]), ('e5', 'G', 'A', 1, [(40.0, 2.5), (0.0, 0.0)]),
+             # geometries with a doubled vertex (in the middle, at the start, at the end): they are read back vertex for vertex
+             ('e6', 'D', 'H', 0, [(20.125, 10.0), (25.0, 12.0), (25.0, 12.0), (30.0, 15.0)]), ('e7', 'H', 'I', 1, [(30.0, 15.0), (30.0, 15.0), (35.0, 15.0), (40.0, 20.0), (40.0, 20.0)])]
     for sep, header in ((',', 1), (';', 1), (',', 0)):
         n_cases += 1
-        case = {'network': 'six edges (orientations 0, 1, -1, 0, -1, 1; multi-vertex geometries)', 'separator': sep, 'header rows': header}
+        case = {'network': 'eight edges (orientations 0, 1, -1, 0, -1, 1, 0, 1; multi-vertex geometries, doubled vertices)', 'separator': sep, 'header rows': header}
         try:
             net = H.Network()
             nodes = {}
